@@ -31,6 +31,7 @@ import subprocess
 import sys
 import tempfile
 import time
+import warnings
 
 import common
 import corpus14
@@ -274,8 +275,44 @@ def expected_from_partner(partner, S_label, S):
     return remap(partner, prefix_map([(PLACEHOLDER, nrm(S))]))
 
 
+def part_env_sequence(chk):
+    """ONE process, the environment variable set / changed / unset between analyses with no scoped override in between (a value
+    memoised at first use, or keyed by something the environment does not touch, shows only here: seeded change C14-5).  The
+    expectation is spelled out, not computed: `insert into t select a from s` under default S is s.S -> t.S with S or <default>."""
+    from sqllineage.runner import LineageRunner
+    seq = [None, "zq1", "zq2", None, "zq1", "zq3", None]
+    n = 0
+    try:
+        for step, S in enumerate(seq):
+            if S is None:
+                os.environ.pop(ENVVAR, None)
+            else:
+                os.environ[ENVVAR] = S
+            P = S or "<default>"
+            for dialect in ("ansi", "non-validating"):
+                with warnings.catch_warnings():
+                    warnings.simplefilter("ignore")
+                    lr = LineageRunner("insert into t select a from s", dialect=dialect)
+                    got = {"source": [str(x) for x in lr.source_tables], "target": [str(x) for x in lr.target_tables],
+                           "pairs": sorted([str(p[0]), str(p[-1])] for p in lr.get_column_lineage())}
+                exp = {"source": [f"{P}.s"], "target": [f"{P}.t"], "pairs": [[f"{P}.s.a", f"{P}.t.a"]]}
+                n += 1
+                chk.count("envseq:" + canon_json([step, S, dialect]), True)
+                if got != exp:
+                    chk.violation(f"default schema {S!r} set through the environment in a running process (step {step} of the sequence "
+                                  f"{seq}) does not give the result of the explicitly qualified script",
+                                  {"kind": "env-sequence", "sequence": seq[:step + 1], "dialect": dialect, "got": got, "expected": exp})
+                    return n
+    finally:
+        os.environ.pop(ENVVAR, None)
+    return n
+
+
 def run(chk):
     os.environ.pop(ENVVAR, None)
+    chk.coverage["env_sequence_runs"] = part_env_sequence(chk)
+    if chk.violations:
+        return chk.finish(level="proof", rule="environment sequence in one process", trusted_base=["harness/c14.py"])
     if not chk.lean.driver_ok:
         chk.stale.append({"kind": "driver", "why": "model driver does not build"})
         return chk.finish(level="proof", rule="driver unavailable")
@@ -644,6 +681,10 @@ def shrink_item(drv, it, mech):
 
 
 def replay(chk, obj):
+    if obj.get("replay", {}).get("kind") == "env-sequence":
+        n0 = len(chk.violations)
+        part_env_sequence(chk)
+        return 1 if len(chk.violations) > n0 else 0
     r = obj["replay"]
     if r.get("kind") == "c14":
         os.environ.pop(ENVVAR, None)
